@@ -142,6 +142,13 @@ Proof. vm_compute. repeat split. Qed.
 Theorem bookkeeping_invariant : forall (ops : list op) (h : iheap), heap_ok h -> heap_ok (irun h ops).
 Proof. exact ProofsInv.irun_ok. Qed.
 
+(* together with the representation invariant of the stored properties: both hold along EVERY history of
+   I-operations (define, set, delete, freeze, seal, ...), so the hypotheses of the refinement theorems below
+   never have to be re-established *)
+Theorem invariants_along_histories : forall (ops : list op) (h : iheap),
+  heap_ok h -> heap_wf h -> heap_ok (irun h ops) /\ heap_wf (irun h ops).
+Proof. exact ProofsInv.irun_ok_wf. Qed.
+
 Theorem bookkeeping_initial : forall n, heap_ok (repeat iobj0 n).
 Proof. exact ProofsInv.heap_ok_empty_objects. Qed.
 
@@ -219,6 +226,7 @@ Print Assumptions ownkeys_same_set.
 Print Assumptions idxcount_exact.
 Print Assumptions sort_idx_is_sorted.
 Print Assumptions bookkeeping_invariant.
+Print Assumptions invariants_along_histories.
 Print Assumptions bookkeeping_initial.
 Print Assumptions idxcount_sound.
 Print Assumptions set_eq_spec.
